@@ -383,8 +383,10 @@ def run_cbmc(gb, inst, tag, workdir, loops=()):
             args = " ".join("--property '%s'" % n for n in names)
             sc = os.path.join(workdir, "run-%s-%s-%s.sh" % (tag, gt, be))
             with open(sc, "w") as f:
-                f.write("ulimit -v %d\nexec /usr/bin/time -f 'VXTIME %%e s %%M KB' cbmc %s %s --trace --verbosity 8 %s %s\n" % (
-                    inst.mem_gb * 1024 * 1024, gb, " ".join(flags), " ".join(BEFLAGS[be]), args))
+                # TMPDIR: cbmc --z3 writes its SMT problem (hundreds of MB) to a temporary file and a killed portfolio loser never
+                # removes it; inside the work directory it goes away with the run directory
+                f.write("ulimit -v %d\nexport TMPDIR='%s'\nexec /usr/bin/time -f 'VXTIME %%e s %%M KB' cbmc %s %s --trace --verbosity 8 %s %s\n" % (
+                    inst.mem_gb * 1024 * 1024, workdir, gb, " ".join(flags), " ".join(BEFLAGS[be]), args))
             lf = open(log, "w")
             p = subprocess.Popen(["bash", sc], stdout=lf, stderr=subprocess.STDOUT, preexec_fn=os.setsid)
             with Running.lock:
